@@ -899,6 +899,15 @@ def run(ctx):
         else:
             n = 900 if ctx.quick() else 12000
             cases = []
+            # the witnesses of Props/C10.lean `include_line_restriction_forced`, run on the real pdsh (model
+            # correspondence: the real binary must do what the reader side of the witness does), and an
+            # ordinary line with CR (inside the theorem's and the oracle's domain)
+            for wi, (wstream, a_content) in enumerate([("malformed", "#includeB\n"), ("malformed", "#include B C\nx1\n"),
+                                                       ("malformed", "#include B\r\n"), ("plain", "foo\r\nbar\n")]):
+                wd = {"d/A": (True, a_content), "d/B": (True, "b1\n")}
+                cases.append({"stream": wstream, "shape": "witness", "disk": dict(wd), "fs": dict(wd), "sources": [("f", "d/A")],
+                              "wargs": ["^d/A"], "stdin": None, "env": None, "casedir": os.path.join(base, "w%d" % wi),
+                              "nfiles": 2, "alt_spelling": False})
             for i in range(n):
                 stream = rng.choices(["plain", "broken", "long", "malformed", "colon"], [48, 18, 17, 13, 4])[0]
                 cases.append(gen_case(rng, stream, os.path.join(base, "k%d" % i)))
